@@ -74,6 +74,7 @@ proof fn lemma_header_attrs_ok()
     {'op': 'fn', 'path': 'IppAttributes::add', 'attrs': ['#[verifier::external_body]'],
      'spec': '''    ensures abs_groups(*final(self)) == spec_add(abs_groups(*old(self)), tag, attribute.sname(), aval(attribute.sval())),'''},
     {'op': 'fn', 'path': 'IppAttributes::to_bytes', 'ret': 'r',
+     'bind': {'BUF': r'let\s+mut\s+(\w+)\s*=\s*BytesMut::(?:new|with_capacity)\s*\('},
      # no panic / overflow for every message whose values are encodable at all (groups_sizes: usize sums of string lengths);
      # the functional statement holds in the domain of C01/C03 (groups_wf)
      'spec': '''    requires groups_sizes(self.sgroups()),
@@ -85,14 +86,14 @@ proof fn lemma_header_attrs_ok()
                     m == group.sattrs(), attrs_sizes(m), wf ==> attrs_wf(m), hs == IppAttribute::HEADER_ATTRS@,
                     it_rem(it1.snapshot@).len() == hs.len(),
                     forall|q: int| 0 <= q < hs.len() ==> *(#[trigger] it_rem(it1.snapshot@)[q]) == hs[q],
-                    wf ==> buf_seq(&buffer) == s1(0x01) + keys_enc(m, ops, ops.len()),
+                    wf ==> buf_seq(&$BUF) == s1(0x01) + keys_enc(m, ops, ops.len()),
                     c09(wf ==> loop1_inv(m, hs, ops, qs, it1.index@)),
 '''},
          2: {'iter_name': 'it3', 'spec': '''
             invariant
                 gs == self.sgroups(), groups_sizes(gs), wf == groups_wf(gs),
                 forall|i: int| 0 <= i < it_rem(it3.snapshot@).len() ==> from_groups(gs, *(#[trigger] it_rem(it3.snapshot@)[i])),
-                wf ==> buf_seq(&buffer) == pre + others_enc(gs, others, others.len()),
+                wf ==> buf_seq(&$BUF) == pre + others_enc(gs, others, others.len()),
                 wf ==> others_ok(gs, others),
 '''},
      },
@@ -101,7 +102,7 @@ proof fn lemma_header_attrs_ok()
                 invariant
                     m == group.sattrs(), attrs_sizes(m), wf ==> attrs_wf(m), hs == IppAttribute::HEADER_ATTRS@, hdrs_ok(hs),
                     iter_facts(m, it_rem(it2.snapshot@)),
-                    wf ==> buf_seq(&buffer) == s1(0x01) + keys_enc(m, ops, ops.len()),
+                    wf ==> buf_seq(&$BUF) == s1(0x01) + keys_enc(m, ops, ops.len()),
                     c09(wf ==> loop1_inv(m, hs, ops1, qs, hs.len() as int)),
                     c09(wf ==> loop2_inv(m, ops1, iter_keys(it_rem(it2.snapshot@)), ops, ps, it2.index@)),
 '''},
@@ -111,7 +112,7 @@ proof fn lemma_header_attrs_ok()
                     iter_facts(mg, it_rem(it4.snapshot@)),
                     wf ==> cur =~= iter_keys(it_rem(it4.snapshot@)).take(it4.index@),
                     wf && it4.index@ == it_rem(it4.snapshot@).len() ==> key_perm(cur, mg),
-                    wf ==> buf_seq(&buffer) == base + s1(group.stag() as u8) + keys_enc(mg, cur, cur.len()),
+                    wf ==> buf_seq(&$BUF) == base + s1(group.stag() as u8) + keys_enc(mg, cur, cur.len()),
 '''},
      ],
      'closures': {0: {'expect_params': '|group|', 'types': {'group': '&&IppAttributeGroup'}, 'ret': 'b: bool',
@@ -137,10 +138,10 @@ proof fn lemma_header_attrs_ok()
                 proof { assert(*hdr == hs[q]);
                         if wf { crate::verif_lemmas::lemma_loop1_step(m, hs, ops, qs, q, m.contains_key(str_of(hs[q]@))); } }
 '''},
-         {'before': 'buffer.put(attr.to_bytes());', 'nth': 0, 'optional': True, 'text': '''
+         {'before': '$BUF.put(attr.to_bytes());', 'nth': 0, 'optional': True, 'text': '''
                     proof { assert(m.contains_key(str_of(hdr@)) && m[str_of(hdr@)] == *attr); }
 '''},
-         {'after': 'buffer.put(attr.to_bytes());', 'nth': 0, 'optional': True, 'text': '''
+         {'after': '$BUF.put(attr.to_bytes());', 'nth': 0, 'optional': True, 'text': '''
                     proof { if wf {
                         crate::verif_lemmas::lemma_keys_enc_push(m, ops, str_of(hdr@));
                         ops = ops.push(str_of(hdr@));
@@ -158,13 +159,13 @@ proof fn lemma_header_attrs_ok()
                     if wf { crate::verif_lemmas::lemma_loop2_step(m, ops1, vks, ops, ps, p, target_rank(m[vks[p]].sname()) == 4); }
                 }
 '''},
-         {'after': 'buffer.put(attr.to_bytes());', 'nth': 1, 'optional': True, 'text': '''
+         {'after': '$BUF.put(attr.to_bytes());', 'nth': 1, 'optional': True, 'text': '''
                     proof { if wf {
                         crate::verif_lemmas::lemma_keys_enc_push(m, ops, vks[p]);
                         ops = ops.push(vks[p]);
                         ps = ps.push(p);
                     } }'''},
-         {'loop': 2, 'where': 'before', 'text': '''let ghost pre = buf_seq(&buffer);
+         {'loop': 2, 'where': 'before', 'text': '''let ghost pre = buf_seq(&$BUF);
         proof { if wf {
             assert(i0 < gs.len() ==> key_perm(ops, gs[i0].sattrs()) && ranks_sorted(gs[i0].sattrs(), ops));
             assert(pre == s1(0x01) + (if i0 < gs.len() { keys_enc(gs[i0].sattrs(), ops, ops.len()) } else { Seq::<u8>::empty() }));
@@ -175,7 +176,7 @@ proof fn lemma_header_attrs_ok()
             let ghost gi = choose|j: int| 0 <= j < gs.len() && gs[j] == *group && gs[j].stag() != DelimiterTag::OperationAttributes;
             proof { assert(from_groups(gs, *group)); }
             let ghost mg = group.sattrs();
-            let ghost base = buf_seq(&buffer);
+            let ghost base = buf_seq(&$BUF);
 '''},
          {'loop': 3, 'where': 'before', 'text': '''#[verifier::prophetic]
             let ghost mut cur: Seq<String> = Seq::empty();
@@ -201,7 +202,7 @@ proof fn lemma_header_attrs_ok()
                 others = others.push((gi, cur));
             } }
 '''},
-         {'before': 'buffer.freeze()', 'optional': True,
-          'text': 'proof { if wf { assert(attrs_enc_ok(gs, buf_seq(&buffer), ops, others)); } }'},
+         {'before': '$BUF.freeze()', 'optional': True,
+          'text': 'proof { if wf { assert(attrs_enc_ok(gs, buf_seq(&$BUF), ops, others)); } }'},
      ]},
 ]
